@@ -157,7 +157,7 @@ RS == {"none", "C", "Kind2"}                              \* what the resource m
 
 Slots(a1, a2, b, c, ref, lro, res) == [a1 : a1, a2 : a2, b : b, c : c, ref : ref, lro : lro, res : res]
 SlotSpace ==
-  CASE Scope = "small" -> Slots({"none", "B", "Outer.Inner"}, {"none", "Outer.Kind"}, {"none", "A"}, {"none"}, {"none", "Res"}, {"B"}, {"none"})
+  CASE Scope = "small" -> Slots({"B", "Outer", "Outer.Inner"}, {"none", "Outer.Kind"}, {"none", "A"}, {"none"}, {"none", "Res"}, {"B"}, {"none"})
     [] Scope = "mid"   -> Slots({"B", "Outer", "Outer.Inner", "A"}, {"Kind", "Outer.Kind"}, {"C", "Outer.Inner.Deep"}, {"B", DepT}, {"ResChild", "Ghost"},
                                 {"Outer.Inner", "Meta"}, {"C", "Kind2"})
     [] Scope = "full"  -> Slots(A1, A2, BB, CC, RF, LR, RS)
@@ -284,8 +284,8 @@ RECURSIVE FieldClose(_)
 FieldClose(S) == LET T == S \cup {y \in Types(g) : \E x \in S : E_field(g, x, y)} IN IF T = S THEN S ELSE FieldClose(T)
 KindOf(x) == IF x \in g.enums THEN "enum" ELSE "message"
 Taint == {x \in Required : FieldClose({x}) \cap Orphans # {}}       \* kept types that refer (transitively, by fields) to an orphan
-\* a listed extended-operation RPC whose polling method is not listed itself (internal mode hides the polling method)
-PollHidden == {n \in Public : \E p \in Internal : E_poll(g, n, p)}
+\* an extended-operation RPC whose polling method is not listed (internal mode hides the polling method under `_name`)
+PollHidden == {n \in KeptRpcs : \E p \in Internal : E_poll(g, n, p)}
 Kinds == <<"io", "lro-response", "lro-metadata", "field", "nested", "resource-reference">>
 KindRel(k, x, y) == CASE k = "io" -> E_io(g, x, y) [] k = "lro-response" -> E_lroResp(g, x, y) [] k = "lro-metadata" -> E_lroMeta(g, x, y)
                       [] k = "field" -> E_field(g, x, y) [] k = "nested" -> E_nested(g, x, y) [] OTHER -> E_ref(g, x, y)
